@@ -154,7 +154,19 @@ impl Property for C08 {
         out.extend(gen::draw(seed, "C08-pairs", tier.pick(2500, 60000), move |g: &mut G| {
             let u = *g.pick(&["prop", "enum", "def", "variant"]);
             let (a, b) = if g.chance(2, 3) { colliding_pair(g) } else { (odd_name(g), odd_name(g)) };
-            let names = if a == b { vec![a] } else { vec![a, b] };
+            // colliding names next to each other, or separated by an unrelated name
+            let names = if a == b {
+                vec![a]
+            } else if g.chance(1, 3) {
+                let filler = g.pick(&["go", "middle", "zz9"]).to_string();
+                if filler == a || filler == b {
+                    vec![a, b]
+                } else {
+                    vec![a, filler, b]
+                }
+            } else {
+                vec![a, b]
+            };
             if u == "prop" {
                 prop_case(&names, g.u64() % PTYPES)
             } else {
